@@ -96,7 +96,7 @@ struct numeric_limits<bool> {
     static constexpr bool is_bounded = true;
     static constexpr bool is_modulo  = false;
 
-    static constexpr bool traps                    = false;
+    static constexpr bool traps                    = true;
     static constexpr bool tinyness_before          = false;
     static constexpr float_round_style round_style = round_toward_zero;
 };
@@ -138,7 +138,7 @@ struct numeric_limits<char> {
 
     static constexpr bool is_iec559  = false;
     static constexpr bool is_bounded = true;
-    static constexpr bool is_modulo  = is_signed;
+    static constexpr bool is_modulo  = !is_signed;
 
     static constexpr bool traps                    = true;
     static constexpr bool tinyness_before          = false;
@@ -241,7 +241,7 @@ struct numeric_limits<char8_t> {
     static constexpr auto max() noexcept -> char8_t { return UCHAR_MAX; }
     static constexpr auto lowest() noexcept -> char8_t { return min(); }
 
-    static constexpr bool is_signed  = CHAR_MIN < 0;
+    static constexpr bool is_signed  = false;
     static constexpr bool is_integer = true;
     static constexpr bool is_exact   = true;
     static constexpr int radix       = 2;
